@@ -22,7 +22,8 @@ EXPLANATION = (
     "takes torch.topk of the peak VALUES with k=max_instances (largest) and applies the returned indices to the peaks; "
     "(sort) the bottom-up max_instances cut slices a list sorted by score, descending; (crop) each crop record takes "
     "frame_idx/video_idx/orig_size/eff_scale from the same zip tuple as its image and centroid, is a fresh dict per "
-    "sample and is appended exactly once unless the sample is all-NaN. Numerical independence of a frame from its "
+    "sample and is appended exactly once unless the sample is all-NaN; (exist) in the batched peak finders and forward() "
+    "methods no early return for the whole batch is guarded by an existential any()-condition over a tensor. Numerical independence of a frame from its "
     "batch-mates (network, batched kernels) is not decided."
 )
 TRUSTED = ["CPython ast", "networkx reachability", "torch.topk returns (values, indices) of the largest k by default"]
@@ -267,19 +268,87 @@ def check_crop(prog: Program, res: Result) -> None:
     res.floor(R, 9)
 
 
+def _reductions(test: ast.AST, pol: int = 1):
+    """(call, quantifier) for every whole-tensor any()/all() in a condition; quantifier 'E' (exists) / 'A' (for all),
+    already adjusted for negations above it."""
+    if isinstance(test, ast.BoolOp):
+        for v in test.values:
+            yield from _reductions(v, pol)
+    elif isinstance(test, ast.UnaryOp) and isinstance(test.op, (ast.Not, ast.Invert)):
+        yield from _reductions(test.operand, -pol)
+    elif isinstance(test, ast.Call):
+        f = norm(test.func)
+        last = f.split(".")[-1]
+        if last in ("any", "all") and not any(k.arg in ("dim", "axis") for k in test.keywords):
+            full = (isinstance(test.func, ast.Attribute) and not test.args and norm(test.func.value) not in ("torch", "np", "numpy")) or \
+                   (f in ("torch.any", "torch.all", "np.any", "np.all", "numpy.any", "numpy.all") and len(test.args) == 1)
+            if full:
+                q = "E" if last == "any" else "A"
+                if pol < 0:
+                    q = "A" if q == "E" else "E"
+                yield test, q
+        elif last in ("bool", "item") and isinstance(test.func, ast.Attribute):
+            yield from _reductions(test.func.value, pol)
+
+
+def check_exist(prog: Program, res: Result) -> None:
+    """A batched function must not take a shortcut for the WHOLE batch because SOME element satisfies a condition.
+
+    Scope: every function of inference/peak_finding.py and every nn.Module.forward under sleap_nn/inference - they
+    receive the whole batch.  For each `if` outside any loop whose test reduces a tensor with any()/all(): the branch
+    that leaves the function early (return) may only be taken under a universally quantified condition ("all peaks are
+    NaN": skipping then changes nothing for anybody); under an existential one ("some peak is NaN") the other frames of
+    the batch lose the skipped computation, so a frame's result depends on its batch-mates."""
+    R = "C12-exist"
+    scope = [fi for fi in prog.functions.values() if fi.module.name == "sleap_nn.inference.peak_finding"
+             or (fi.module.name.startswith("sleap_nn.inference.") and fi.name == "forward")]
+    if len(scope) < 8:
+        raise AnalysisError(f"C12-exist: only {len(scope)} batched functions found")
+    n = 0
+    for fi in scope:
+        res.touch(fi)
+        for st in walk_function(fi.node):
+            if not isinstance(st, ast.If) or astq.enclosing_loops(st):
+                continue
+            reds = list(_reductions(st.test))
+            if not reds:
+                continue
+            then_ret = any(isinstance(x, ast.Return) for x in st.body)
+            else_ret = any(isinstance(x, ast.Return) for x in st.orelse)
+            for call, q in reds:
+                n += 1
+                if then_ret and not else_ret:
+                    bad = q == "E"
+                elif else_ret and not then_ret:
+                    bad = q == "A"  # the early exit is taken when NOT all ... = some ... not
+                else:
+                    bad = False
+                res.ob(R, not bad, fi.qualname, f"whole-batch shortcut under a universal condition: {short(st.test, 60)}",
+                       f"`if {short(st.test, 70)}` leaves {fi.name}() early for the whole batch as soon as SOME element satisfies `{short(call, 50)}`: "
+                       "the remaining frames of the batch lose the computation that follows (their result depends on their batch-mates)",
+                       f"{fi.module.relpath}:{st.lineno}", sample={"test": short(st.test, 80), "quantifier": q})
+    res.count(R, len(scope))
+    res.floor(R, 9)
+
+
 def check(prog: Program, res: Result) -> None:
     check_align(prog, res)
     check_split(prog, res)
     check_topk(prog, res)
     check_sort(prog, res)
     check_crop(prog, res)
+    check_exist(prog, res)
     res.assumptions.append("numerical independence of one sample's output from its batch-mates (network, batched kernels) is not decided")
 
 
 Q = "sleap_nn/inference/predictors.py"
 T = "sleap_nn/inference/topdown.py"
 B = "sleap_nn/inference/bottomup.py"
+PK = "sleap_nn/inference/peak_finding.py"
 VARIANTS = [
+    Variant("exist-any-nan-skips-refinement", PK, "    if refinement is None or torch.isnan(rough_peaks).all():", "    if refinement is None or torch.isnan(rough_peaks).any():", "C12-exist"),
+    Variant("exist-not-all", PK, "    if refinement is None or torch.isnan(rough_peaks).all():", "    if refinement is None or not (~torch.isnan(rough_peaks)).all():", "C12-exist"),
+    Variant("bp-exist-none-valid", PK, "    if refinement is None or torch.isnan(rough_peaks).all():", "    if refinement is None or not (~torch.isnan(rough_peaks)).any():", None),
     Variant("align-conditional-append", Q, "                fidxs.append(frame[\"frame_idx\"])\n", "                if frame[\"frame_idx\"] > 0:\n                    fidxs.append(frame[\"frame_idx\"])\n", "C12-align"),
     Variant("align-wrong-key", Q, "                vidxs.append(frame[\"video_idx\"])\n", "                vidxs.append(frame[\"frame_idx\"])\n", "C12-align"),
     Variant("align-not-reset", Q, "            fidxs = []\n            vidxs = []", "            vidxs = []", "C12-align"),
